@@ -36,6 +36,18 @@ claimed["C01"]=dict(
    text="For every AP-REQ, keytab and settings: success implies a keytab entry matching principal (or override)/realm/kvno/etype decrypts the ticket, both clock readings lie inside the skew-extended windows, the invalid flag is clear, address requirements hold, the authenticator decrypts under the ticket session key with the right usage, cname and crealm match, and the identity returned is the ticket's cname/crealm/endtime. Refusals carry an error and each RFC error code appears only when its condition holds. Replay and PAC clauses are decided under C02/C19, not here.",
    note="Trusted: uninterpreted et_dec_ok/et_dec_pt (trusted_ensures on the six DecryptMessage implementations), trusted frames of the ASN.1 decoder, replay cache, GetPACType and SetADCredentials; time.Now unconstrained.",
    design="4/C01")
+claimed["C09"]=dict(
+   technique="contract-based deductive verification: RFC 4120 3.1.5 / 3.3.4 reply checks as postconditions on the real ASRep.Verify / TGSRep.Verify / DecryptEncPart and on the exchanges that call them (callers against callee contracts, recursion with a variant); discharged by z3/cvc5 via gowp",
+   category="proof",
+   text="For every reply, request, credentials and configuration: an AS or TGS exchange returns success only if the reply's cname, realm, nonce, (AS) sname and srealm, addresses and KDC time agree with the request that was sent and the encrypted part decrypts with key usage 3 under the client's long-term key (keytab entry matching cname/crealm/kvno/etype, or the password-derived key) or usage 8 under the TGT session key; referral recursion is bounded by a variant. What the code does not check (TGS sname) is listed as not decided, as is the error-code text of KRB-ERROR replies.",
+   note="Trusted: uninterpreted et_dec_ok, trusted frames of the ASN.1 decoder / setPAData / addSession, arbitrary network replies.",
+   design="4/C09")
+claimed["C02"]=dict(
+   technique="contract-based deductive verification with a lock-invariant rule: the replay cache's maps are declared guarded by Cache.mux, are havocked at every acquisition up to a declared lock invariant that is proved at every release, and IsReplay/AddEntry/ClearOldEntries carry postconditions relating the state at the acquisition (atlock) to the state at return; lockset obligations on every guarded access; discharged by z3/cvc5 via gowp",
+   category="proof",
+   text="For every cache content and every interleaving admitted by the lock-invariant model, IsReplay is proved to be an atomic test-and-set on the set of recorded presentations (true exactly if recorded when the lock was taken; records it; forgets and adds nothing else), AddEntry and ClearOldEntries are proved against the same view, every guarded map access holds the lock, and VerifyAPREQ accepts only after IsReplay answered false. Eviction timing is not yet under contract (listed as not decided).",
+   note="Trusted: the lock-invariant abstraction of concurrency (state guarded by the lock arbitrary at each acquisition), map keys compared as values (time.Time by instant), strings.Join uninterpreted, trusted frame for writes through map values.",
+   design="4/C02")
 hooks=subprocess.run("git -C /repo log --format='%H %s' | grep ' verif:' | awk '{print $1}'",shell=True,capture_output=True,text=True).stdout.split()
 m={"version":1,
  "setup_cmd":"./setup.sh",
